@@ -351,6 +351,23 @@ def run(ctx) -> None:  # noqa: C901
         want = f"{x >> 18:02d}:{x & 0x3FFFF:06d}"
         if dev != want:
             ctx.violate("C04|dev_id|wrong-id", "6-hex id decodes to the wrong tt:nnnnnn", {"hex": hx, "got": dev})
+        # the 'friendly' text form (CTL:145038, ' 27:000001') is accepted by the same encoders: it must lead
+        # back to the same hex, or be refused - never to another device
+        if x != 0xFFFFFE:  # (the null device's friendly form is a label, not an id)
+            for nm, to_f, from_f in (("hex_id_to_dev_id/dev_id_to_hex_id", hex_id_to_dev_id, dev_id_to_hex_id), ("Address.convert_from_hex/convert_to_hex", conv_from, conv_to)):
+                fr = to_f(hx, friendly_id=True)
+                try:
+                    back = from_f(fr)
+                except Exception:  # noqa: BLE001
+                    ctx.count("ids.friendly.refused")
+                    continue
+                ctx.count("ids.friendly")
+                if back != hx:
+                    ctx.violate(
+                        f"C04|{nm.split('/')[1]}|friendly-form-decodes-to-another-device",
+                        "a 6-hex id rendered in the friendly form is read back by the library's own encoder as a different device",
+                        {"hex": hx, "friendly": fr, "back": back},
+                    )
         dev2 = conv_from(hx)
         if dev2 != dev or conv_to(dev2) != hx:
             ctx.violate(
